@@ -342,11 +342,17 @@ pub fn gen_refs(root: &Path, out: &mut Output) {
                     format!(
                         "({}, [{}])",
                         lstr(n),
-                        f.split(',').filter(|x| !x.is_empty()).map(|x| lstr(x.trim())).collect::<Vec<_>>().join(", ")
+                        f.split(',').filter(|x| !x.is_empty()).map(|x| format!(".{}", x.trim().replace('.', "_"))).collect::<Vec<_>>().join(", ")
                     )
                 })
                 .collect();
-            text.push_str(&format!("def intrinsicFeatures : List (String × List String) := [\n  {}\n]\n\n", rows.join(",\n  ")));
+            if rows.len() != out.used_intrinsics.len() {
+                out.errors.push(format!(
+                    "stdarch_features.tsv lacks {} of the intrinsics the source uses",
+                    out.used_intrinsics.len() - rows.len()
+                ));
+            }
+            text.push_str(&format!("def intrinsicFeatures : List (String × List Feat) := [\n  {}\n]\n\n", rows.join(",\n  ")));
         },
         Err(e) => out.errors.push(format!("stdarch_features.tsv: {e}")),
     }
